@@ -234,3 +234,29 @@ func TestRaceMapAndWaitGroup(t *testing.T) {
 		}
 	})
 }
+
+// TestMapOrderChoice: with MapOrderChoices the iteration order of a ranged map is a data choice that costs one
+// deviation: "first entry wins" code has one outcome within deviation bound 0 and two within bound 1.
+func TestMapOrderChoice(t *testing.T) {
+	MapOrderChoices = true
+	defer func() { MapOrderChoices = false }()
+	sc := func() ([]*EnvEvent, func(), func(*Result) (string, []string)) {
+		first := ""
+		main := func() {
+			m := map[string]int{"a": 1, "b": 2, "c": 3}
+			for k := range RangeMap(m) {
+				first = k
+				break
+			}
+			for range RangeMap(map[string]int{"x": 1}) { // a single entry: no choice
+			}
+		}
+		return nil, main, func(r *Result) (string, []string) { return first, nil }
+	}
+	st0 := Explore(ExploreOpts{}, sc, func(*Execution) {})
+	st1 := Explore(ExploreOpts{DeviationBound: 1}, sc, func(*Execution) {})
+	t.Logf("db=0 %v, db=1 %v", st0.Outcomes, st1.Outcomes)
+	if len(st0.Outcomes) != 1 || st0.Outcomes["a"] != 1 || len(st1.Outcomes) != 2 || st1.Outcomes["c"] != 1 || st1.Executions != 2 {
+		t.Fatalf("unexpected outcomes: db=0 %v, db=1 %v (%d executions)", st0.Outcomes, st1.Outcomes, st1.Executions)
+	}
+}
